@@ -61,13 +61,15 @@ check("C05",
 check("C20",
       "Theorems (Lean, for every decoder): per call at most max_length bytes returned and at most one block of input "
       "read; a chain that honours max_length never buffers; otherwise the carry-over buffer holds at most one call's "
-      "decoder output; no loss/duplication across the buffer for every request sequence; counter-example theorem: a "
-      "decoder ignoring max_length makes the buffer proportional to expansion (F13, open known finding for "
-      "ZStandard/Deflate/Brotli). Tied by the dec stream (buffer length/pos/consumed compared). Peak RSS of real "
-      "256 MB (quick) / 1 GB (thorough) members per codec family is measured in child processes. Partial: RSS is an observation.",
+      "decoder output; no loss/duplication across the buffer for every request sequence; every stage of the coder chain "
+      "is held to the caller's limit (every_stage_bounded); counter-example theorem: a decoder ignoring max_length makes "
+      "the buffer proportional to expansion (F13: ZStandard/Deflate/Deflate64/Brotli did, repaired in /repo). Tied by "
+      "the dec streams (buffer length/pos/consumed and per-stage output lengths compared). Peak RSS of real 256 MB "
+      "(quick) / 1 GB (thorough) members per codec family - zeros, short period, medium ratio, random; BCJ in front of "
+      "BZip2/LZMA; Deflate64 from the reference writer - is measured in child processes against baseline + 700 MiB. "
+      "Open finding: writing 1 GB through PPMd (growth inside pyppmd). Partial: RSS is an observation.",
       "Lean 4 invariants over a decoder-parametric model + differential correspondence + RSS measurement in child processes",
-      "DESIGN.md §4 C20")
-
+      "DESIGN.md §9.3 C20")
 check("C12",
       "Theorems (Lean, every archive shape, call sequences of ANY length): under the quantifier's discipline every call "
       "returns what the same call returns on a freshly opened archive (invariant: not dirty -> decoder cache fresh); "
